@@ -1482,6 +1482,20 @@ def slice_C13(ctx):
         for inp in ("", "a", "abc", "\n"):
             tuples.append(("xpath", fl, "", inp, "x"))
     tuples.append(("xsd", "q", "a", "a", "x"))
+    # characters whose case mappings are not one-to-one or not ASCII (U+0130 lowercases to two characters,
+    # sharp s uppercases to two, final sigma, Kelvin sign, long s, ligatures, Deseret): whatever the
+    # case-blind comparison does with them, a literal occurs in an input that contains it verbatim -
+    # a claim that needs no case-folding oracle (own generator state)
+    rng_e = random.Random(ctx.seed * 15485863 + 13)
+    special = "\u0130\u0131\u00df\u1e9e\u0149\u01f0\u0390\ufb01\u212a\u017f\u03a3\u03c3\u03c2\u01c5\u00b5\u039c\U00010400\U00010428iIkKsS ()$"
+    n_embed = 0
+    for _ in range(ctx.n(400, 4000)):
+        pe = "".join(rng_e.choice(special) for _ in range(rng_e.randint(1, 5)))
+        f1 = "".join(rng_e.choice(special) for _ in range(rng_e.randint(0, 3)))
+        f2 = "".join(rng_e.choice(special) for _ in range(rng_e.randint(0, 3)))
+        for fl in ("qi", "q", "iq"):
+            tuples.append(("xpath", fl, pe, f1 + pe + f2, rng_e.choice(["$0\\", "x", ""]), "embed"))
+            n_embed += 1
     cases = mk_cases(tuples, "mrta")
     code, model, dis = run_slice(cases)
     violations, nontrivial = [], set()
@@ -1489,6 +1503,16 @@ def slice_C13(ctx):
     for c in cases:
         r = code.get(c.cid, {})
         same = same_as_model(code, model, c.cid)
+        if c.tag == "embed":
+            nontrivial.add(c.key())
+            hist["embed"] += 1
+            if r.get("C") != "ok" or r.get("M") != "1":
+                violations.append(viol(c, "is_match=1", {"C": r.get("C"), "M": r.get("M")},
+                                       "with flag q a literal does not occur in an input that contains it verbatim", None, same))
+            elif c.repl == "" and "q" in c.flags and r.get("R", "").startswith("ok:") and len(tie.dec(r["R"][3:])) > len(c.input) - len(c.pattern):
+                violations.append(viol(c, "an occurrence removed", r.get("R"),
+                                       "replace_all with the empty replacement does not remove an occurrence of the literal", None, same))
+            continue
         if c.dialect == "xsd":
             if r.get("C") != "E:InvalidFlags":
                 violations.append(viol(c, "E:InvalidFlags", r.get("C"), "flag q accepted in the XSD dialect", None, same))
